@@ -4,6 +4,26 @@ import json, os, sys
 VERIF = os.path.dirname(os.path.dirname(os.path.abspath(__file__)))
 ALL = ['C%02d' % i for i in range(1, 20)]
 CHECKS = {
+ 'C01': dict(engine='explore', design='4/C01',
+   text='(A) Explicit-state BFS pools of real values (apply/remove/slice/concat/pad/assign histories, depth 2-3, set/clear/extended/reset roles) and (B) the optimiser bridge table enumerated directly (all 91 unordered pairs of effect groups x {absent, value1, value2, clear code}^4 on adjacent characters x ballasts x one-span/abutting, plus every single group): every value is rendered under all 8 optimize/reset_start/reset_end combinations (+str/format/f-string, AnsiStr twin) and every rendering is interpreted by an independent SGR terminal from the default and from a dirty prior state and compared with the reduction of the settings the object reports per character.',
+   note='Trusted: mc/refterm.py (conforming terminal = the 15-group reading the properties spell out). Verbatim/ill-formed settings are C15 business. Bounds in evidence.',
+   technique='explicit-state BFS + exhaustive bridge-table enumeration, renderings interpreted by a reference terminal'),
+ 'C03': dict(engine='explore', design='4/C03',
+   text='Explicit-state BFS pools (well-formed roles plus verbatim multi-group, incomplete, invalid and unknown-code settings): in every state the render/re-parse round trip (AnsiString and AnsiStr) and simplify() on a copy are checked - text, per-character effective style (reference terminal reading of the valid codes), parsable afterwards, no invalid setting left, idempotence, fixed point of str(AnsiString(str(s))), AnsiStr twin, health of the simplified value.',
+   note='Trusted: mc/refterm.py, mc/model.py. States with incomplete verbatim groups are excluded from the style clause only.',
+   technique='explicit-state BFS over operation histories with a state invariant checked in every state'),
+ 'C10': dict(engine='langenum', design='4/C10',
+   text='Bounded exhaustive differential against Python str: every text up to length 4-5 over per-family alphabets (search/split, whitespace, case/predicates incl. length-changing Unicode, padding) wrapped as AnsiString/AnsiStr, formatted and plain, x every argument tuple (all patterns up to length 2 incl. empty, all start/end in [-L-1..L+1]+None, counts, fills, widths); results, result types and exception types compared with the same str call, documented deviations encoded in the oracle; per-call watchdog with a deterministic step budget for termination.',
+   note='Oracle = str of /venv/bin/python 3.12. Unicode beyond the 12 representatives is not claimed.',
+   technique='exhaustive enumeration of (text, method, arguments) against str as reference model'),
+ 'C14': dict(engine='langenum', design='4/C14',
+   text='Exhaustive enumeration of spelling classes: every AnsiFormat member name (~700) x 12 spellings x 6 wrappers x 3 entry points, every code 0..255 x 9 spellings, rgb/color256 string shapes x 5 prefixes x boundary values x number formats x brackets/spaces (canonical codes computed from the statement: clamping, 24-bit split, ul_/dul_ prefix), all ordered pairs/triples of 12 base forms combined 4 ways (incl. int runs split across nested lists), and 38 rejections x 3 entry points with the exact exception type.',
+   note='Canonical codes for named members come from the member definition; for rgb/color256 from the statement. color256 out of range is not claimed (statement is silent).',
+   technique='exhaustive enumeration of input spellings per equivalence class against a reference canonicaliser'),
+ 'C15': dict(engine='langenum', design='4/C15',
+   text='Bounded exhaustive: every setting text of length 1..5/6 over 13 bytes (digits, ;, space, 0x3F, m, 0x40, 0x7E, 0x7F) and every ;-list of <=4-6 tokens over 15 tokens, flags queried in both orders twice (they are cached), against a reference grammar; every AnsiFormat member/name/known code/in-range helper result; BFS pools with 7 verbatim settings: is_formatting_valid/parsable vs the conjunction over settings in use, SGR-removal and setting-intact clauses under all 8 rendering flag combinations.',
+   note='Reading: tokens with spaces/leading zeros judged by integer value. The setting-intact clause is applied to unoptimised renderings (the optimiser may legitimately drop shadowed parsable settings).',
+   technique='exhaustive enumeration of setting texts against a reference grammar + explicit-state BFS for the rendering clause'),
  'C02': dict(engine='langenum', design='4/C02',
    text='Bounded exhaustive enumeration: every SGR code list up to length 5/6 over an 11-code alphabet (set, clear, reset, unknown, extended-colour ingredients) after 5 prior-state contexts, and every token sequence up to length 5/6 over 13 tokens (text, 6 SGR sequences, non-SGR/unterminated control sequences, lone ESC and [), constructed through the real AnsiString/AnsiStr and compared character by character with an independent SGR terminal run over the raw input.',
    note='Trusted: mc/refterm.py. Ambiguous SGR readings (38;x, components>255) are checked for text only. Not claimed beyond the stated lengths/alphabets.',
